@@ -111,7 +111,12 @@ func (r *Run) N(quick, thorough int) int {
 	return quick
 }
 
-func (r *Run) evidencePath() string { return filepath.Join(VerifDir, "evidence", r.ID+".json") }
+func (r *Run) evidencePath() string {
+	if d := os.Getenv("VERIF_EVIDENCE_DIR"); d != "" { // mutation self-tests (VERIF_REPO) write elsewhere
+		return filepath.Join(d, r.ID+".json")
+	}
+	return filepath.Join(VerifDir, "evidence", r.ID+".json")
+}
 
 func (r *Run) loadFindings() {
 	f, err := os.Open(filepath.Join(VerifDir, "known_findings.txt"))
@@ -220,6 +225,9 @@ func (r *Run) Violation(sig Sig, what string, detail any) string {
 	}
 	r.replaySeq++
 	dir := filepath.Join(VerifDir, "replay", r.ID)
+	if d := os.Getenv("VERIF_EVIDENCE_DIR"); d != "" {
+		dir = filepath.Join(d, "replay", r.ID)
+	}
 	os.MkdirAll(dir, 0o755)
 	p := filepath.Join(dir, fmt.Sprintf("%s-seed%d-%d.json", r.Tier, r.Seed, r.replaySeq))
 	w := map[string]any{"property": r.ID, "signature": sig.String(), "what": what, "seed": r.Seed, "tier": r.Tier, "detail": detail}
